@@ -162,7 +162,7 @@ def simulate_execution(ex, sp, intent):
             pass
         else:
             break
-        charges = sum(cost(j + i) for i in range(size))
+        charges = size * beh["cost"] if beh.get("step", 0) == 0 else sum(cost(j + i) for i in range(size))
         gen_ticks = size * beh.get("gc", 0) if mode == 2 else 0      # input generation, before the start reading
         j += size
         dur_ticks = charges + delta
